@@ -11,7 +11,7 @@
    model needed a second marker for it; now the cursor clause is proved outright.) *)
 From Coq Require Import ZArith List Bool Lia.
 Import ListNotations.
-From Urwid Require Import WidgetDims WidgetDimsProofs WidgetDimsFrame WidgetDimsOverlay WidgetDimsTree.
+From Urwid Require Import WidgetDims WidgetDimsProofs WidgetDimsFrame WidgetDimsOverlay WidgetDimsColsArith WidgetDimsCols WidgetDimsTree.
 Open Scope Z_scope.
 
 Definition WellFormed (w : widget) : Prop := wf_b w = true.
@@ -29,10 +29,16 @@ Definition render_contract_full : Prop :=
         delegation, BoxAdapter, Padding (given / pack / relative width), Filler (pack / given / relative
         height), Pile (given / pack / weight items), Frame (header / footer / any focus part) and
         Overlay with a given or relative width (packed / given / relative height, margins, alignment),
-        by structural induction on the tree.  The cursor clause is proved outright (no marker).
-        Not covered: fixed sizing, Columns (hence LineBox, whose generated Pile contains Columns),
-        Overlay with width='pack' (fixed top widget), clip Padding (see _refuted below for the part of
-        the full statement that is false of the faithful model). ---- *)
+        Columns (given / pack / weight columns, box_columns, dividechars, min_width, any focus column;
+        box columns hold box widgets, the other columns flow widgets) and therefore LineBox (AttrMap-like
+        delegation to a Pile of three Columns), by structural induction on the tree.  The cursor clause is
+        proved outright (no marker).  The Columns width arithmetic (widths >= 0, with dividers at most
+        maxcol) is C19's theorem column_widths_total_shape, transferred to this model by
+        WidgetDimsColsArith.column_widths_eq.
+        Not covered: fixed sizing, Overlay with width='pack' (fixed top widget), clip Padding, Columns
+        with a 'pack' column whose widget is a FIXED-capable container, or a non-box column holding a
+        widget that is not a flow widget (see _refuted below for the part of the full statement that is
+        false of the faithful model). ---- *)
 Theorem render_contract_partial :
   forall w sz f, leaves_ok w -> WellFormed w -> proved_fragment w = true ->
     sz <> SFixed -> valid_for (m_sizing (denote w)) sz ->
@@ -51,7 +57,7 @@ Theorem rows_and_pack_partial :
   forall w c f, leaves_ok w -> WellFormed w -> proved_fragment w = true ->
     s_flow (m_sizing (denote w)) = true -> 1 <= c ->
     match m_rows (denote w) c f with
-    | Ok h => 1 <= h /\ exists wd, m_pack (denote w) (SFlow c) f = Ok (wd, h)
+    | Ok h => 1 <= h /\ exists wd, 0 <= wd /\ m_pack (denote w) (SFlow c) f = Ok (wd, h)
     | Err e => soft e
     end.
 Proof.
@@ -62,9 +68,10 @@ Proof.
 Qed.
 Print Assumptions rows_and_pack_partial.
 
-(* the hypothesis about leaves is implied by a plain condition on what the leaf reports *)
-Theorem leaf_contract_sufficient : forall d, leaf_contract d -> Good (leaf_sem d).
-Proof. exact leaf_good. Qed.
+(* the hypotheses about a leaf are implied by plain conditions on what the leaf reports *)
+Theorem leaf_contract_sufficient :
+  forall d, leaf_contract d -> leaf_fixed_ok d -> Good (leaf_sem d) /\ fpack_ok (leaf_sem d).
+Proof. exact leaf_hyps. Qed.
 Print Assumptions leaf_contract_sufficient.
 
 (* the per-constructor lemmas, for arbitrary children satisfying the contract *)
@@ -93,6 +100,11 @@ Theorem overlay_contract : forall t b p,
   overlay_top_ok (m_sizing t) p = true -> Good (overlay_sem t b p).
 Proof. exact overlay_good. Qed.
 Print Assumptions overlay_contract.
+Theorem columns_contract : forall l d mw fp,
+  Forall cgood l -> Forall (cols_item_ok (cols_sizing l)) l ->
+  0 <= d -> 1 <= mw -> 0 <= fp < zlength l -> Good (cols_sem l d mw fp).
+Proof. exact cols_good. Qed.
+Print Assumptions columns_contract.
 
 (* ---- concrete leaves (they also show that the leaf hypothesis is satisfiable) ---- *)
 (* a one-line text *)
@@ -122,21 +134,34 @@ Proof.
   split; [|intros; discriminate]. intros c f _ Hc.
   eexists; exists 1, 1. cbn. repeat split; auto; lia.
 Qed.
+Lemma line_leaf_fixed : leaf_fixed_ok line_leaf.
+Proof. intros _ f. cbn. lia. Qed.
 Lemma wrap_leaf_ok : leaf_contract wrap_leaf.
 Proof.
   split; [|intros; discriminate]. intros c f _ Hc.
   eexists; exists (wrap_rows_of c), (Z.min c 5). cbn. unfold wrap_rows_of.
   repeat split; auto; destruct (c <? 2); try destruct (c <? 5); lia.
 Qed.
+Lemma wrap_leaf_fixed : leaf_fixed_ok wrap_leaf.
+Proof. intros _ f. cbn. lia. Qed.
 Lemma edit_leaf_ok : leaf_contract edit_leaf.
 Proof.
   split; [|intros; discriminate]. intros c f _ Hc.
   eexists; exists 1, c. cbn. repeat split; auto; try lia. unfold inside; destruct f; cbn; auto; lia.
 Qed.
+Lemma edit_leaf_fixed : leaf_fixed_ok edit_leaf.
+Proof. intros H; discriminate. Qed.
 Lemma solid_leaf_ok : leaf_contract solid_leaf.
 Proof.
   split; [intros; discriminate|]. intros c r f _ Hc Hr. cbn. repeat split; auto.
 Qed.
+Lemma solid_leaf_fixed : leaf_fixed_ok solid_leaf.
+Proof. intros H; discriminate. Qed.
+
+Definition line_ok := leaf_hyps _ line_leaf_ok line_leaf_fixed.
+Definition wrap_ok := leaf_hyps _ wrap_leaf_ok wrap_leaf_fixed.
+Definition edit_ok := leaf_hyps _ edit_leaf_ok edit_leaf_fixed.
+Definition solid_ok := leaf_hyps _ solid_leaf_ok solid_leaf_fixed.
 
 (* ---- the full statement is FALSE of the faithful model: a witness replayed on the implementation by
         corpus/C01 (known finding C01-padding-fixed-pack-differs-from-render) ---- *)
@@ -146,7 +171,7 @@ Definition padding_fixed_witness : widget := WPadding (WLeaf line_leaf) 0 WPack 
 Theorem render_contract_full_refuted : ~ render_contract_full.
 Proof.
   intros H.
-  specialize (H padding_fixed_witness SFixed false (leaf_good _ line_leaf_ok) eq_refl eq_refl).
+  specialize (H padding_fixed_witness SFixed false line_ok eq_refl eq_refl).
   vm_compute in H. destruct H as [H _]. discriminate.
 Qed.
 Print Assumptions render_contract_full_refuted.
@@ -191,8 +216,7 @@ Example sample_tree_in_scope :
   /\ m_sizing (denote sample_tree) = mkS true false false.
 Proof.
   split; [reflexivity|]. split; [reflexivity|]. split; [|reflexivity].
-  cbn. repeat split;
-    first [apply leaf_good, wrap_leaf_ok | apply leaf_good, edit_leaf_ok | apply leaf_good, solid_leaf_ok].
+  cbn. repeat (first [exact wrap_ok | exact edit_ok | exact solid_ok | exact line_ok | split]).
 Qed.
 
 Example sample_tree_renders :
@@ -200,4 +224,61 @@ Example sample_tree_renders :
   /\ m_render (denote sample_pile) (SBox 10 9) true = Ok (mkC 10 9 (Some (0, 2)) true)
   /\ m_render (denote sample_pile) (SBox 3 2) false = Ok (mkC 3 2 None true)
   /\ m_render (denote sample_pile) (SBox 1 4) false = Err EStarved.
+Proof. vm_compute. repeat split; reflexivity. Qed.
+
+(* ---- LineBox(Edit) as urwid builds it: an AttrMap-like delegation to a Pile of three Columns ---- *)
+(* Divider: one row at any width, flow only *)
+Definition divider_leaf : leafdata :=
+  mkLeaf (mkS false true false)
+    (fun _ c => Ok (mkFE (Ok 1) (Ok (c, 1)) (Ok (mkC c 1 None true))))
+    (fun _ => Err EWidget) (fun _ => Err EValue) (fun _ _ _ => Err EValue).
+(* the title Text " t ": 3 columns *)
+Definition title_leaf : leafdata :=
+  mkLeaf (mkS false true true)
+    (fun _ c => Ok (mkFE (Ok (if c <? 3 then 3 else 1)) (Ok (Z.min c 3, if c <? 3 then 3 else 1))
+                         (Ok (mkC c (if c <? 3 then 3 else 1) None true))))
+    (fun _ => Ok (3, 1)) (fun _ => Ok (mkC 3 1 None true)) (fun _ _ _ => Err EValue).
+
+Lemma divider_ok : Good (leaf_sem divider_leaf) /\ fpack_ok (leaf_sem divider_leaf).
+Proof.
+  apply leaf_hyps; [|intros H; discriminate].
+  split; [|intros; discriminate]. intros c f _ Hc. eexists; exists 1, c. cbn. repeat split; auto; lia.
+Qed.
+Lemma title_ok : Good (leaf_sem title_leaf) /\ fpack_ok (leaf_sem title_leaf).
+Proof.
+  apply leaf_hyps; [|intros _ f; cbn; lia].
+  split; [|intros; discriminate]. intros c f _ Hc.
+  eexists; exists (if c <? 3 then 3 else 1), (Z.min c 3). cbn. repeat split; auto; destruct (c <? 3); lia.
+Qed.
+
+Definition linebox (w : widget) : widget :=
+  let tline := WColumns (CCons (WLeaf divider_leaf) KWeight 1 false
+                        (CCons (WLeaf title_leaf) KPack 0 false
+                        (CCons (WLeaf divider_leaf) KWeight 1 false CNil))) 0 1 0 in
+  let top := WColumns (CCons (WLeaf line_leaf) KGiven 1 false
+                      (CCons tline KWeight 1 false
+                      (CCons (WLeaf line_leaf) KGiven 1 false CNil))) 0 1 0 in
+  let middle := WColumns (CCons (WLeaf solid_leaf) KGiven 1 true
+                         (CCons w KWeight 1 false
+                         (CCons (WLeaf solid_leaf) KGiven 1 true CNil))) 0 1 1 in
+  let bottom := WColumns (CCons (WLeaf line_leaf) KGiven 1 false
+                         (CCons (WLeaf divider_leaf) KWeight 1 false
+                         (CCons (WLeaf line_leaf) KGiven 1 false CNil))) 0 1 0 in
+  WAttr (WPile (PCons top KPack 0 (PCons middle KWeight 1 (PCons bottom KPack 0 PNil))) 1).
+
+Example linebox_in_scope :
+  WellFormed (linebox (WLeaf edit_leaf)) /\ proved_fragment (linebox (WLeaf edit_leaf)) = true
+  /\ leaves_ok (linebox (WLeaf edit_leaf))
+  /\ WellFormed (linebox (WLeaf solid_leaf)) /\ proved_fragment (linebox (WLeaf solid_leaf)) = true
+  /\ WellFormed (linebox sample_pile) /\ proved_fragment (linebox sample_pile) = true.
+Proof.
+  split; [reflexivity|]. split; [reflexivity|]. split.
+  - cbn. repeat (first [exact line_ok | exact edit_ok | exact solid_ok | exact divider_ok | exact title_ok | split]).
+  - repeat split; reflexivity.
+Qed.
+
+Example linebox_renders :
+  m_render (denote (linebox (WLeaf edit_leaf))) (SFlow 9) true = Ok (mkC 9 3 (Some (1, 1)) true)
+  /\ m_rows (denote (linebox (WLeaf edit_leaf))) 9 true = Ok 3
+  /\ m_render (denote (linebox (WLeaf solid_leaf))) (SBox 6 4) false = Ok (mkC 6 4 None true).
 Proof. vm_compute. repeat split; reflexivity. Qed.
